@@ -1,5 +1,7 @@
 import XfemmVerif.Model.Magnetics
 import XfemmVerif.Model.MSolver
+import XfemmVerif.Model.MHarmonic
+import XfemmVerif.Lemmas.ComplexField
 import XfemmVerif.Properties.C03
 import Mathlib.Tactic.Ring
 import Mathlib.Tactic.FieldSimp
@@ -18,6 +20,11 @@ The whole first pass of `Static2D` and of `StaticAxisymmetric` (`Model/MSolver.l
 mixed boundary terms, current and magnetisation sources, first-pass permeabilities, accumulation, point currents, prescribed
 potentials through `SetValue`, ties) is compared bit for bit with the system the real solver hands to `PCGSolve`; its
 permeability, circuit and prescription functions are related here to the ones the theorems above are about.
+The whole first pass of `Harmonic2D` (`Model/MHarmonic.lean`, complex scalar `Cx α` with the `CComplex` operators) is compared the
+same way with the system handed to `PBCGSolveMod`; proved about it (section `Harmonic`): the flat density of a stranded circuit
+reproduces the complex circuit current, a circuit with conducting regions gets its own unknown (case 2), the eddy coefficient is
+`−j a ω σ c / 12` in solid regions and zero in laminated and wound ones, the complex permeability reduces to the static
+laminated permeability when there is no lag and no conductivity, and a prescribed potential is `(a/c)(cos φ + j sin φ)`.
 Decided per run by the independent SI oracle on the real `.ans` (labelled partial): the global
 statement incl. prescribed-A boundaries, magnets, the time-harmonic system and its circuit unknowns.
 -/
@@ -168,5 +175,98 @@ theorem firstPassMuAxi_solid (bp : MBlockProp γ) (h : bp.lamType = 0) :
   simp [firstPassMuAxi, h]
 
 end AxiThresholds
+
+/-! ### the time-harmonic assembly model (`Model/MHarmonic.lean`) -/
+section Harmonic
+set_option linter.unusedSectionVars false
+open XfemmVerif XfemmVerif.MHarmonic XfemmVerif.Cx
+variable {K : Type} [Field K] [LinearOrder K] [IsStrictOrderedRing K] [AbsGt K] [LawfulAbsGt K]
+
+/-- `re + I*im` as the solvers write it is the complex number with those parts -/
+theorem ofParts_eq (re im : K) : (Cx.ofParts re im : Cx K) = ⟨re, im⟩ := by
+  simp [Cx.ofParts, Cx.radd, Cx.mulR, Cx.I]
+
+/-- a current-driven circuit whose regions do not conduct gets a flat complex density that **reproduces the circuit current**:
+    `J · ∫dA = 0.01 (I − ∫J_block dA)` -/
+theorem harmonic_circuit_flat (c001 : K) (cp : HCirc K) (int1 int3 : Cx K) (ht : cp.typ = 0) (h1 : int1 ≠ 0) :
+    ∃ J, MHarmonic.circuitCase c001 cp int1 0 int3 = (1, J, 0) ∧
+      J * int1 = Cx.rmul c001 ((⟨cp.amps.re, cp.amps.im⟩ : Cx K) - int3) := by
+  have hz : (0 : Cx K).isZero = true := by simp [Cx.isZero]
+  have hn : int1.isZero = false := by
+    by_contra h
+    have h' : int1.isZero = true := by simpa using h
+    simp only [Cx.isZero, Bool.and_eq_true, beq_iff_eq] at h'
+    exact h1 (Cx.ext' h'.1 h'.2)
+  refine ⟨Cx.rmul c001 (Cx.ofParts cp.amps.re cp.amps.im - int3) / int1, by simp [MHarmonic.circuitCase, ht, hz, hn], ?_⟩
+  rw [ofParts_eq]
+  exact div_mul_cancel₀ _ h1
+
+/-- a current-driven circuit with conducting regions gets an extra unknown (case 2: its voltage gradient is solved for) -/
+theorem harmonic_circuit_unknown (c001 : K) (cp : HCirc K) (int1 int2 int3 : Cx K) (ht : cp.typ = 0) (h2 : int2 ≠ 0) :
+    MHarmonic.circuitCase c001 cp int1 int2 int3 = (2, 0, 0) := by
+  have hn : int2.isZero = false := by
+    by_contra h
+    have h' : int2.isZero = true := by simpa using h
+    simp only [Cx.isZero, Bool.and_eq_true, beq_iff_eq] at h'
+    exact h2 (Cx.ext' h'.1 h'.2)
+  simp [MHarmonic.circuitCase, ht, hn]
+
+/-- **the eddy coefficient of a solid, unlaminated region is `−j a ω σ c / 12`** (consistent mass `a/12 · [2 1 1; 1 2 1; 1 1 2]`
+    once added as the assembly adds it: twice on the diagonal, once off it) -/
+theorem eddyK_solid (k : HConsts K) (bp : HBlockProp K) (a : K) (h : ¬ (bp.lamType = 0 ∧ 0 < bp.lamD)) :
+    eddyK k bp false a = ⟨0, -(a * k.w * bp.cduct * k.c / 12)⟩ := by
+  have : (bp.lamType == 0 && decide ((0 : K) < bp.lamD) || false) = false := by
+    simp only [Bool.or_false, Bool.and_eq_false_iff, beq_eq_false_iff_ne, ne_eq, decide_eq_false_iff_not]
+    by_cases h0 : bp.lamType = 0
+    · exact Or.inr (fun hh => h ⟨h0, hh⟩)
+    · exact Or.inl h0
+  unfold eddyK
+  rw [if_neg (by simpa using this)]
+  apply Cx.ext' <;> simp [Cx.mulR, Cx.divR, Cx.I] <;> ring
+
+/-- in laminated and in wound regions the eddy term is absent (their eddy currents live in the complex permeability / the
+    strands carry no bulk current) -/
+theorem eddyK_laminated (k : HConsts K) (bp : HBlockProp K) (wound : Bool) (a : K) (h0 : bp.lamType = 0) (hd : 0 < bp.lamD) :
+    eddyK k bp wound a = 0 := by
+  simp [eddyK, h0, hd]
+theorem eddyK_wound (k : HConsts K) (bp : HBlockProp K) (a : K) : eddyK k bp true a = 0 := by
+  simp [eddyK]
+
+/-- no lag angle, no lag: `exp(-j·0) = 1` for any exponential / sine / cosine with the values at zero -/
+theorem lag_zero (k : HConsts K) (he : k.F.exp 0 = 1) (hc : k.F.cos 0 = 1) (hs : k.F.sin 0 = 0) : lag k 0 = ⟨1, 0⟩ := by
+  simp [lag, Cx.cexp, Cx.mulR, Cx.I, he, hc, hs]
+
+/-- **static limit of the complex permeability**: without hysteresis lag and without conductivity a laminated block
+    (`LamType 0`, `Lam_d ≠ 0`) has the real parallel-combination permeability of the static solver -/
+theorem blockMu_static_limit (k : HConsts K) (c04 c0001 : K) (bp : HBlockProp K)
+    (he : k.F.exp 0 = 1) (hc : k.F.cos 0 = 1) (hs : k.F.sin 0 = 0)
+    (h0 : bp.lamType = 0) (hx : bp.thetaHx = 0) (hy : bp.thetaHy = 0) (hd : bp.lamD ≠ 0) (hcd : bp.cduct = 0) :
+    blockMu k c04 c0001 bp =
+      (⟨(lamMu 0 bp.lamFill bp.mux bp.muy).1, 0⟩, ⟨(lamMu 0 bp.lamFill bp.mux bp.muy).2, 0⟩) := by
+  have hl := lag_zero k he hc hs
+  unfold blockMu
+  simp only [h0, hx, hy, hl, hcd, beq_self_eq_true, if_true, bne_self_eq_false, Bool.false_eq_true, if_false]
+  have hdn : (bp.lamD != 0) = true := by simpa using hd
+  rw [if_pos hdn]
+  simp [Cx.rmul, Cx.mulR, Cx.addR, lamMu]
+
+/-- an unlaminated block (`Lam_d = 0`) without lag has its bulk permeabilities, whatever its conductivity (its eddy currents
+    are in the mass term) -/
+theorem blockMu_solid (k : HConsts K) (c04 c0001 : K) (bp : HBlockProp K)
+    (he : k.F.exp 0 = 1) (hc : k.F.cos 0 = 1) (hs : k.F.sin 0 = 0)
+    (h0 : bp.lamType = 0) (hx : bp.thetaHx = 0) (hy : bp.thetaHy = 0) (hd : bp.lamD = 0) :
+    blockMu k c04 c0001 bp = (⟨bp.mux, 0⟩, ⟨bp.muy, 0⟩) := by
+  have hl := lag_zero k he hc hs
+  unfold blockMu
+  simp [h0, hx, hy, hl, hd, Cx.rmul]
+
+/-- the complex potential prescribed along a segment (cartesian form) is `(A0 + A1 x + A2 y)/c · (cos φ + j sin φ)` -/
+theorem harmonic_prescribedA_cartesian (k : HConsts K) (lp : HBdryProp K) (x y : K) (he : k.F.exp 0 = 1) :
+    MHarmonic.prescribedA k false lp x y =
+      ⟨(lp.A0 + x / k.ucm * lp.A1 + y / k.ucm * lp.A2) / k.c * k.F.cos (lp.phi * k.deg),
+       (lp.A0 + x / k.ucm * lp.A1 + y / k.ucm * lp.A2) / k.c * k.F.sin (lp.phi * k.deg)⟩ := by
+  simp [MHarmonic.prescribedA, Cx.cexp, Cx.mulR, Cx.rmul, Cx.I, he]
+
+end Harmonic
 
 end XfemmVerif.C05
